@@ -11,6 +11,7 @@ CONSTANTS
   FwdHonoursTerm = FALSE
   InitViaQueue = FALSE
   ClearCache = FALSE
+  DrainKeepsTerm = FALSE
   MonitorOnly = FALSE
 INVARIANT TypeOK
 CONSTRAINT Progress
